@@ -65,6 +65,9 @@ pub struct World {
     unix: BTreeMap<PathBuf, Arc<Mutex<ListenerState>>>,
     udp: BTreeMap<u16, (IpAddr, Arc<Mutex<UdpState>>)>,
     pub dns: BTreeMap<String, Vec<IpAddr>>,
+    /// destinations there is no route to: a TCP connect to one of them fails at once with
+    /// NetworkUnreachable (not refused: nobody was asked)
+    pub unreachable: Vec<IpAddr>,
     next_port: u16,
     next_conn: u64,
     pub t0: Option<Instant>,
@@ -82,7 +85,7 @@ pub struct World {
 }
 impl Default for World {
     fn default() -> Self {
-        World { cfg: NetCfg::default(), rng: 1, tcp: BTreeMap::new(), unix: BTreeMap::new(), udp: BTreeMap::new(), dns: BTreeMap::new(), next_port: 40000, next_conn: 0, t0: None, digest: 0xcbf2_9ce4_8422_2325, events: 0, log: vec![], connects: vec![], conns: BTreeMap::new(), counters: BTreeMap::new(), connect_wakers: vec![], drops: vec![], events_by_conn: BTreeMap::new() }
+        World { cfg: NetCfg::default(), rng: 1, tcp: BTreeMap::new(), unix: BTreeMap::new(), udp: BTreeMap::new(), dns: BTreeMap::new(), unreachable: vec![], next_port: 40000, next_conn: 0, t0: None, digest: 0xcbf2_9ce4_8422_2325, events: 0, log: vec![], connects: vec![], conns: BTreeMap::new(), counters: BTreeMap::new(), connect_wakers: vec![], drops: vec![], events_by_conn: BTreeMap::new() }
     }
 }
 thread_local! {
@@ -352,6 +355,13 @@ async fn connect_to(addr: SocketAddr, from: Option<SocketAddr>) -> io::Result<Tc
     let rtt = with(|w| w.latency() + w.latency());
     if !rtt.is_zero() {
         tokio::time::sleep(rtt).await;
+    }
+    if with(|w| w.unreachable.contains(&addr.ip())) {
+        with(|w| {
+            let t = w.now();
+            w.connects.push(ConnectRec { t, to: addr, ok: false, conn: 0 });
+        });
+        return Err(io::ErrorKind::NetworkUnreachable.into());
     }
     let l = with(|w| w.tcp.get(&addr.port()).map(|(ip, l)| (*ip, l.clone())));
     let ok = l.as_ref().is_some_and(|(lip, _)| lip.is_unspecified() || *lip == addr.ip());
